@@ -6,7 +6,6 @@ import copy
 import math
 from decimal import Decimal
 
-from hypothesis import strategies as st
 
 from vp.core import Disc, Recorder, canon, derive_seed, escape_bucket, h64, hyp_collect, hyp_shrink
 from vp.gen import c20_schema as G
